@@ -9,7 +9,8 @@ RULE = ("every adapter (callback_await / callback_await_alloc, make_promise, dis
         "second of two trailer-tagged counting storages / cocls::reusable_storage_mtsafe) x future type (future<counted>, future<void>, "
         "factory returning future<counted&>) x caller mode (plain thread / coro_queue active) x converter (all six future_conv "
         "specialisations; returns / throws / resolves with an exception / declines / forwards the promise to a third thread) x optional "
-        "competing resolver on a third thread (value / exception / p(drop)); engine adapt* = real threads, one runnable at a time, "
+        "competing resolver on a third thread (value / exception / p(drop)) x optional re-arming call_fn_future_awaiter handler whose second "
+        "operation a third thread resolves; engine adapt* = real threads, one runnable at a time, "
         "yield at every COCLS_VERIF_POINT; engine adseq* = the same scenarios without the controller on one fresh thread; random, bursty, "
         "resolver-first and registrar-first schedules, thorough adds every schedule prefix of length 8-11 for the two-thread "
         "configurations and every prefix of length 7 over three threads for the competitor; non-trivial = valid configuration and "
